@@ -47,6 +47,7 @@ def judge(src):
         kept = h["atok"].text.split("\n")
         skipped = [i for i, l in enumerate(text.split("\n")) if i >= len(kept) or kept[i] != l]
         v += RO.displayed(rep, text, h["atok"].tree, h["atok"], skipped)
+        v += RO.invented(rep, text, h["atok"].tree, h["atok"], skipped)
         marked = RO.marked_lines(rep, text)
         for i in marked:
             if i not in skipped:
